@@ -73,20 +73,27 @@ NfMatches(S, r, pkt, st) == \A i \in DOMAIN r.m : NfMatch(S, r.m[i], pkt, st)
 \* ---- would the kernel load this program? ----------------------------------------------------------
 (* iptables refuses a multiport / --dport match in a rule without a positive -p for a port protocol and an
    icmp/icmp6 match without -p icmp / ipv6-icmp; both kernels refuse a reference to a set that does not
-   exist; nft refuses a lookup whose key does not have the set's type.                               *)
-NfRuleWellFormed(flavour, S, r) ==
+   exist; nft refuses a lookup whose key does not have the set's type, and nft's grammar wants the
+   protocol keyword before every header field: "icmp type 8 code 0" is a syntax error (the "code"
+   is not a keyword outside the icmp scope; nft 1.0.6: "Error: No symbol type information"), the
+   accepted spelling is "icmp type 8 icmp code 0".                                                  *)
+NfRuleRefusals(flavour, S, r) ==
     LET ms == NfElems(r.m)
         posProto == { m.p : m \in { x \in ms : x.k = "proto" /\ ~x.neg } }
-    IN /\ \A m \in ms : m.k = "set" =>
-            /\ m.name \in DOMAIN S
-            /\ Len(m.dirs) >= 1
-            /\ flavour = "nft" => Len(m.dirs) = (IF S[m.name].type = "net" THEN 1 ELSE 2)
-       /\ flavour = "ipt" =>
-            /\ \A m \in ms : m.k = "ports" => posProto \cap NfPortProtos # {}
-            /\ \A m \in ms : m.k = "icmp" => (IF m.v = 4 THEN 1 ELSE 58) \in posProto
-       /\ Cardinality(posProto) <= 1
-NfWellFormed(P, S) ==
-    \A c \in DOMAIN P.chains : \A i \in DOMAIN P.chains[c] : NfRuleWellFormed(P.flavour, S, P.chains[c][i])
+        sm == { m \in ms : m.k = "set" }
+    IN (IF \E m \in sm : m.name \notin DOMAIN S \/ Len(m.dirs) < 1 THEN {"unknown-set"} ELSE {})
+       \cup (IF flavour = "nft" /\ \E m \in sm : m.name \in DOMAIN S
+                                      /\ Len(m.dirs) # (IF S[m.name].type = "net" THEN 1 ELSE 2)
+             THEN {"nft-set-key-type"} ELSE {})
+       \cup (IF flavour = "ipt" /\ (\E m \in ms : m.k = "ports") /\ posProto \cap NfPortProtos = {}
+             THEN {"ipt-ports-without-protocol"} ELSE {})
+       \cup (IF flavour = "ipt" /\ \E m \in ms : m.k = "icmp" /\ (IF m.v = 4 THEN 1 ELSE 58) \notin posProto
+             THEN {"ipt-icmp-without-protocol"} ELSE {})
+       \cup (IF flavour = "nft" /\ \E m \in ms : m.k = "icmpf" /\ m.bare THEN {"nft-bare-icmp-code"} ELSE {})
+       \cup (IF Cardinality(posProto) > 1 THEN {"two-protocols"} ELSE {})
+NfRefusals(P, S) ==
+    UNION { UNION { NfRuleRefusals(P.flavour, S, P.chains[c][i]) : i \in DOMAIN P.chains[c] } : c \in DOMAIN P.chains }
+NfWellFormed(P, S) == NfRefusals(P, S) = {}
 
 \* ---- execution ------------------------------------------------------------------------------------
 NfSetMark(mark, a) ==
